@@ -440,10 +440,10 @@ pub fn encode_json<B: KeyBuffer>(json: &JsonValue, buf: &mut B) {
         }
         JsonValue::Object(obj) => {
             buf.push(type_prefix::JSON_OBJECT);
-            for (i, (key, val)) in obj.iter().enumerate() {
-                if i > 0 {
-                    buf.push(0x01);
-                }
+            // every entry starts with 0x01: an escaped key may itself begin with 0x00 (empty
+            // key, key starting with NUL) and must not be mistaken for the terminator
+            for (key, val) in obj.iter() {
+                buf.push(0x01);
                 encode_escaped_bytes(key.as_bytes(), buf);
                 encode_json(val, buf);
             }
@@ -932,10 +932,8 @@ fn decode_json_object(data: &[u8]) -> Result<(Vec<(String, DecodedJson)>, usize)
         if data[i] == 0x00 {
             return Ok((entries, i + 1));
         }
-        if !entries.is_empty() {
-            ensure!(data[i] == 0x01, "expected json object separator 0x01");
-            i += 1;
-        }
+        ensure!(data[i] == 0x01, "expected json object entry marker 0x01");
+        i += 1;
         let (key_bytes, key_consumed) = decode_escaped_bytes(&data[i..])?;
         let key = String::from_utf8(key_bytes)
             .map_err(|e| eyre::eyre!("invalid UTF-8 in json object key: {}", e))?;
